@@ -7,7 +7,7 @@ REL="${PKG#Havoc/}"
 HD="/verif/harness/$(echo "$REL" | sed 's#/#__#g')"
 OV=$(mktemp -d /tmp/gosx_ov.XXXXXX)
 trap 'rm -rf "$OV"' EXIT
-PKGNAME=$(grep -h '^package ' "$HD"/zz_verif_*.go | head -1 | awk '{print $2}')
+echo "use ./check" ; exit 1
 cp "$HD"/zz_verif_*.go "$OV"/
 sed "s/PKGNAME/$PKGNAME/" /verif/harness/_rt/zz_verif_rt.go.tmpl > "$OV/zz_verif_rt.go"
 { echo "package $PKGNAME"; echo; echo "var verifHarnesses = map[string]func(){"; grep -h -o '^func H_[A-Za-z0-9_]*()' "$HD"/zz_verif_*.go | sed 's/^func \(H_[A-Za-z0-9_]*\)()/\t"\1": \1,/'; echo "}"; } > "$OV/zz_verif_registry.go"
